@@ -743,6 +743,8 @@ class Continuum:
         if times[min_index] < n * p + numba_factor * n**p:  # Check is fast-gamma is advantageous compared to gamma
             self.best_window_size = window_sizes[min_index]
         else:
+            # A window size recorded by an earlier measure must not survive : normal gamma is used.
+            self.best_window_size = np.inf
             logging.warning("Fast-gamma disadvantageous, using normal gamma.")
 
     def get_best_alignment(self, dissimilarity: AbstractDissimilarity) -> 'Alignment':
